@@ -37,6 +37,19 @@ struct Body {
     closures: Vec<Value>,
     calls: Vec<Value>,
     tries: Vec<Value>,
+    matches: Vec<Value>,
+}
+fn collect_pat_paths(p: &syn::Pat, out: &mut Vec<String>) {
+    match p {
+        syn::Pat::Path(x) => out.push(path_str(&x.path)),
+        syn::Pat::Struct(x) => out.push(path_str(&x.path)),
+        syn::Pat::TupleStruct(x) => out.push(path_str(&x.path)),
+        syn::Pat::Or(x) => { for c in &x.cases { collect_pat_paths(c, out); } }
+        syn::Pat::Reference(x) => collect_pat_paths(&x.pat, out),
+        syn::Pat::Paren(x) => collect_pat_paths(&x.pat, out),
+        syn::Pat::Ident(x) => { if let Some((_, sub)) = &x.subpat { collect_pat_paths(sub, out); } }
+        _ => {}
+    }
 }
 fn has_let(e: &syn::Expr) -> bool {
     match e {
@@ -91,6 +104,19 @@ impl<'ast> Visit<'ast> for Body {
         }
         syn::visit::visit_expr_if(self, e);
     }
+    fn visit_expr_match(&mut self, m: &'ast syn::ExprMatch) {
+        let mut arms = vec![];
+        for a in &m.arms {
+            let mut names: Vec<String> = vec![];
+            collect_pat_paths(&a.pat, &mut names);
+            let sp = a.span().byte_range();
+            let end = a.comma.as_ref().map(|c| c.span().byte_range().end).unwrap_or(sp.end);
+            arms.push(json!({"span": [sp.start, end], "pat": r(&a.pat), "paths": names, "body": r(&*a.body)}));
+        }
+        self.matches.push(json!({"span": r(m), "expr": r(&*m.expr), "arms": arms,
+            "brace_close": m.brace_token.span.close().byte_range().start}));
+        syn::visit::visit_expr_match(self, m);
+    }
     fn visit_expr_closure(&mut self, c: &'ast syn::ExprClosure) {
         self.closures.push(json!({"span": r(c), "body": r(&*c.body)}));
         syn::visit::visit_expr_closure(self, c);
@@ -131,7 +157,7 @@ impl V {
             "asyncness": sig.asyncness.as_ref().map(|a| r(a)),
             "body": block.map(|b| r(b)), "stmts": stmts,
             "loops": b.loops, "macros": b.macros, "awaits": b.awaits, "returns": b.returns,
-            "letchains": b.letchains, "closures": b.closures, "calls": b.calls, "tries": b.tries,
+            "letchains": b.letchains, "closures": b.closures, "calls": b.calls, "tries": b.tries, "matches": b.matches,
             "inputs": sig.inputs.iter().map(|i| r(i)).collect::<Vec<_>>(),
             "generics": r(&sig.generics), "where": sig.generics.where_clause.as_ref().map(|w| r(w)),
         }));
